@@ -53,6 +53,14 @@ pub enum K {
     Stat(R),
     Const(R),
     Use,
+    /// an impl block for R that contains one `use` (hand-written histories only)
+    ImplUse(R),
+}
+
+impl K {
+    pub fn is_use(self) -> bool {
+        matches!(self, K::Use | K::ImplUse(_))
+    }
 }
 
 #[derive(Clone, Debug, PartialEq, Eq, PartialOrd, Ord)]
@@ -204,7 +212,7 @@ impl Skel {
                 }
                 Some(self.depth_of(regs[0]) + 2)
             }
-            K::Use => None,
+            K::Use | K::ImplUse(_) => None,
             _ => Some(self.depth_of(i) + 1),
         }
     }
